@@ -4,6 +4,7 @@
 package genlib
 
 import (
+	"bytes"
 	"context"
 	"crypto/sha256"
 	"encoding/hex"
@@ -1113,6 +1114,14 @@ func judgeError(o *engine.Outcome, w *world, d *spec.Design, s *spec.Service, m 
 	}
 	ct := ex.RespHeader.Get("Content-Type")
 	var js any
+	if want != nil && want.EmptyBody && (mode == "declared" || mode == "wrapped-declared") {
+		// designed without a body: everything travels in headers (the client-side comparison above has judged them)
+		if len(bytes.TrimSpace(ex.RespBody)) != 0 {
+			o.Violate("error_body_malformed", "error_body_not_empty:"+mode, "%s: error %q is designed with an empty body and went out with %q", where, want.Name, clipS(string(ex.RespBody)))
+		}
+		o.Features["c05_empty_body_error"]++
+		return
+	}
 	if !strings.Contains(ct, "json") || json.Unmarshal(ex.RespBody, &js) != nil {
 		o.Violate("error_body_malformed", "error_body_malformed:"+mode, "%s: error response body %q does not parse under Content-Type %q", where, clipS(string(ex.RespBody)), ct)
 	}
